@@ -173,7 +173,7 @@ func newCluster(e envSpec) (*mockcluster.Cluster, context.CancelFunc) {
 	}
 	opts.SetReplicationConfig(rc)
 	c := mockcluster.NewCluster(ctx, opts)
-	c.SetLabelPropertyConfig(config.LabelPropertyConfig{opt.RejectLeader: {{Key: "noleader", Value: "true"}}})
+	c.SetLabelPropertyConfig(config.LabelPropertyConfig{opt.RejectLeader: {{Key: "noleader", Value: "never"}, {Key: "noleader", Value: "true"}}})
 	for i := 0; i < e.N; i++ {
 		c.PutStore(newStore(e, uint64(i+1), 0, 0))
 	}
